@@ -93,7 +93,15 @@ func (r *loopRepo) FetchSignatureBlob(ctx context.Context, desc ocispec.Descript
 		return nil, ocispec.Descriptor{}, errors.New("mock: blob unavailable")
 	}
 	blob := []byte(fmt.Sprintf("signature-envelope-%d", k))
-	return blob, ocispec.Descriptor{MediaType: mtJWS, Digest: digestOf(digest.SHA256, blob), Size: int64(len(blob))}, nil
+	return blob, ocispec.Descriptor{MediaType: loopSigMediaType(k), Digest: digestOf(digest.SHA256, blob), Size: int64(len(blob))}, nil
+}
+
+// the signatures of one artifact are of mixed envelope formats: each must reach the verifier with its own media type
+func loopSigMediaType(k int) string {
+	if k%2 == 1 {
+		return mtJWS
+	}
+	return mtCOSE
 }
 
 func (r *loopRepo) PushSignature(ctx context.Context, mediaType string, blob []byte, subject ocispec.Descriptor, annotations map[string]string) (ocispec.Descriptor, ocispec.Descriptor, error) {
@@ -121,6 +129,11 @@ func (v *loopVerifier) Verify(ctx context.Context, desc ocispec.Descriptor, sig 
 	}
 	v.mu.Unlock()
 	out := &notation.VerificationOutcome{RawSignature: sig, VerificationLevel: trustpolicy.LevelStrict}
+	if opts.SignatureMediaType != loopSigMediaType(k) {
+		// a real verifier cannot even parse an envelope announced with another format's media type
+		out.Error = fmt.Errorf("mock: signature %d announced as %q", k, opts.SignatureMediaType)
+		return out, out.Error
+	}
 	if k >= 1 && k <= len(v.in.Listing) && v.in.Listing[k-1] == "valid" {
 		return out, nil
 	}
